@@ -130,6 +130,95 @@ def inline_call(caller, bl, call, helper, bodies, counter):
             caller['macros'].append(m)
 
 
+def _local_of(op):
+    if isinstance(op, dict) and op.get('k') in ('move', 'copy') and isinstance(op.get('pl'), dict) and not op['pl'].get('p'):
+        return op['pl']['l']
+    return None
+
+
+def thread_try(body, max_dups=40):
+    """after a splice, `helper(..)?` has become: build Ok(..) / Err(..) in the helper's arms, join, call Try::branch on the
+    joined value, switch on Continue / Break.  The join hides from path rules which arm leads where.  Each arm whose value
+    is a literal Ok / Err (Some / None) gets its own copy of the join..branch..switch blocks with the switch replaced by the
+    jump the variant determines (jump threading); statements and the call itself are kept, so nothing else changes."""
+    blocks = {b['id']: b for b in body['blocks']}
+    nxt = [max(blocks) + 1]
+    dups = 0
+    preds = {}
+    for b in body['blocks']:
+        t = b['term']
+        if t.get('t') == 'goto':
+            preds.setdefault(t['to'], []).append(b['id'])
+    for B in list(body['blocks']):
+        t = B['term']
+        if t.get('t') != 'call' or t.get('to') is None or len(t.get('args') or []) != 1:
+            continue
+        c = t.get('callee') or {}
+        if not re.search(r'Try>?::branch$', (c.get('resolved') or '')) and not re.search(r'Try>?::branch$', (c.get('def') or '')):
+            continue
+        x = _local_of(t['args'][0])
+        dest = t.get('dest') or {}
+        C = blocks.get(t['to'])
+        if x is None or dest.get('p') or C is None or C['term'].get('t') != 'switch':
+            continue
+        d = _local_of(C['term']['on'])
+        is_discr = any(st.get('s') == 'assign' and not st['lhs'].get('p') and st['lhs']['l'] == d and st['rv'].get('r') == 'discr'
+                       and st['rv']['pl'].get('l') == dest.get('l') and not st['rv']['pl'].get('p') for st in C['st'])
+        tg = {str(v): g for v, g in C['term']['targets']}
+        if d is None or not is_discr or '0' not in tg or ('1' not in tg and C['term'].get('otherwise') is None):
+            continue
+        brk = tg.get('1', C['term'].get('otherwise'))
+        # backwards along trivial gotos from B, following the copied local
+        found = []          # (source block id, chain of block ids from its successor to B, variant)
+
+        def back(bid, want, chain, depth):
+            blk = blocks[bid]
+            w = want
+            for st in reversed(blk['st'] if bid != B['id'] else blk['st']):
+                if st.get('s') != 'assign' or st['lhs'].get('p') or st['lhs']['l'] != w:
+                    if st.get('s') == 'assign' and st['lhs']['l'] == w:
+                        return          # written through a projection: give up on this path
+                    continue
+                rv = st['rv']
+                if rv.get('r') == 'use' and _local_of(rv.get('op')) is not None:
+                    w = _local_of(rv['op'])
+                    continue
+                if rv.get('r') == 'agg' and rv['kind'].get('a') == 'adt' and rv['kind'].get('variant') in ('Ok', 'Err', 'Some', 'None') \
+                        and re.search(r'(^|::)(Result|Option)$', rv['kind'].get('adt') or ''):
+                    if chain:
+                        found.append((bid, list(chain), rv['kind']['variant']))
+                    return
+                return
+            if depth >= 6:
+                return
+            for pb in preds.get(bid, []):
+                if pb in chain or pb == bid:
+                    continue
+                back(pb, w, [bid] + chain, depth + 1)
+        back(B['id'], x, [], 0)
+        for src, chain, variant in found:
+            if dups >= max_dups or blocks[src]['term'].get('t') != 'goto' or blocks[src]['term']['to'] != chain[0]:
+                continue
+            target = tg['0'] if variant in ('Ok', 'Some') else brk
+            ids = {}
+            for cid in chain + [C['id']]:
+                ids[cid] = nxt[0]
+                nxt[0] += 1
+            for cid in chain + [C['id']]:
+                nb = copy.deepcopy(blocks[cid])
+                nb['id'] = ids[cid]
+                tt = nb['term']
+                if cid == C['id']:
+                    nb['term'] = {'t': 'goto', 'to': target}
+                elif tt.get('t') in ('goto', 'call') and tt.get('to') in ids:
+                    tt['to'] = ids[tt['to']]
+                body['blocks'].append(nb)
+                blocks[nb['id']] = nb
+            blocks[src]['term']['to'] = ids[chain[0]]
+            dups += 1
+    return dups
+
+
 def inline_new_helpers(raw, ref_names, max_blocks=600):
     """-> list of helper paths that were inlined"""
     bodies = {b['name']: b for b in raw['bodies']}
@@ -155,6 +244,7 @@ def inline_new_helpers(raw, ref_names, max_blocks=600):
         plain_new[_plain(n)] = n
     done = []
     spliced = set()
+    touched = set()
     counter = [0]
     for _round in range(6):
         progressed = False
@@ -183,6 +273,7 @@ def inline_new_helpers(raw, ref_names, max_blocks=600):
                     if hn in ready and len(caller['blocks']) + len(bodies[hn]['blocks']) <= max_blocks:
                         inline_call(caller, bl, t, bodies[hn], bodies, counter)
                         spliced.add(hn)
+                        touched.add(cn)
                         changed = True
                         progressed = True
                         break
@@ -198,5 +289,8 @@ def inline_new_helpers(raw, ref_names, max_blocks=600):
                     del bodies[k]
         if not progressed:
             break
+    for cn in touched:
+        if cn in bodies:
+            thread_try(bodies[cn])
     raw['bodies'] = [bodies[n] for n in order if n in bodies] + [b for n, b in bodies.items() if n not in order]
     return done
